@@ -123,7 +123,8 @@ func NewView(rec *sim.Record) *View {
 		v.Dset[i] = true
 		v.MaxD = i
 	}
-	v.RollingUpdate = set.Spec.UpdateStrategy.Type == asv1.RollingUpdateStatefulSetStrategyType
+	// an omitted type means RollingUpdate ("Default is RollingUpdate", types.go; the CRD does not default it)
+	v.RollingUpdate = set.Spec.UpdateStrategy.Type == asv1.RollingUpdateStatefulSetStrategyType || set.Spec.UpdateStrategy.Type == ""
 	v.OnDelete = set.Spec.UpdateStrategy.Type == asv1.OnDeleteStatefulSetStrategyType
 	if ru := set.Spec.UpdateStrategy.RollingUpdate; ru != nil {
 		v.HasBlock = true
